@@ -233,7 +233,19 @@ func (rt *Transfer) recvGenerator(idx int, f *File) error {
 		if rt.Opts.DryRun {
 			return nil
 		}
+		if err == nil && !sameDevice(f, st) {
+			// An entry of a different type, or a device with different
+			// major/minor numbers exists. Delete it so that we can create
+			// the device (or special file) instead.
+			if err := rt.DestRoot.Remove(f.Name); err != nil {
+				return fmt.Errorf("unlinking to make room for device: %v", err)
+			}
+			st = nil
+		}
 		if err := rt.createDevice(f, st); err != nil {
+			return err
+		}
+		if err := rt.setPerms(f, fs.FileMode(f.Mode)); err != nil {
 			return err
 		}
 		return nil
